@@ -123,7 +123,7 @@ def finish_worker(job, ex, violations, errors=None, note=None, validated=0, eval
         "cvc5_unsat": st.cvc5_unsat, "unknown": st.unknown, "queries": st.queries,
         "solver_s": st.solver_s + (ex.solver_s if ex is not None else 0.0),
         "reach_checked": st.reach_checked, "reach_failed": st.reach_failed,
-        "cvc5_cross": st.cvc5_cross, "cvc5_disagree": st.cvc5_disagree,
+        "cvc5_cross": st.cvc5_cross, "cvc5_disagree": st.cvc5_disagree, "cvc5_agree": st.cvc5_agree,
         "samples": st.samples[:2], "violations": violations, "errors": list(errors or []),
         "inconclusive": list(job.get("_inconclusive", [])), "validated": validated,
         "evaluated": evaluated,
